@@ -6,7 +6,7 @@ import subprocess
 import time
 import tomllib
 
-from kv import Index, Weaver, Undecided, VERIF, REPO, sha
+from kv import Index, Weaver, Undecided, VERIF, REPO, sha, emit_closure_fn
 
 WORK = os.path.join(VERIF, ".work")
 
@@ -100,6 +100,7 @@ class Unit:
         self.weaver = w
         fn_specs = {f.get("id", f["path"]): f for f in sc.get("fn", [])}
         item_specs = {f.get("id", f["path"]): f for f in sc.get("item", [])}
+        closure_specs = {f["id"]: f for f in sc.get("closure_fn", [])}
         tpl_path = os.path.join(sc["_dir"], sc.get("template", self.name + ".rs"))
         with open(tpl_path) as fh:
             tpl = fh.read()
@@ -135,6 +136,10 @@ class Unit:
                     elif arg in item_specs:
                         t = w.emit_item(item_specs[arg])
                         emit_text(t, arg, "item")
+                    elif arg in closure_specs:
+                        t, it = emit_closure_fn(w, closure_specs[arg])
+                        out_lines.append(f"// ---- closure body extracted from {os.path.relpath(it['file'], REPO)} (R5)")
+                        emit_text(t, arg, os.path.relpath(it["file"], REPO))
                     else:
                         raise Undecided(f"template names unknown extraction id {arg!r}")
                     used.add(arg)
@@ -145,7 +150,7 @@ class Unit:
                     out_lines.append(line)
 
         process(tpl)
-        missing = (set(fn_specs) | set(item_specs)) - used
+        missing = (set(fn_specs) | set(item_specs) | set(closure_specs)) - used
         if missing:
             raise Undecided(f"sidecar entries never placed in template: {sorted(missing)}")
         self.text = "\n".join(out_lines)
@@ -154,7 +159,7 @@ class Unit:
             it = ix.find(m.group(1), kind="const", file_hint=sc.get("const_file_hint"))
             s0, e0 = it["expr"]
             lit = ix.text(it["file"], s0, e0).strip()
-            if not re.fullmatch(r"[0-9A-Za-z_x]+", lit):
+            if not re.fullmatch(r"[0-9A-Za-z_x]+|u(8|16|32|64|size)::MAX", lit):
                 raise Undecided(f"@@const:{m.group(1)}@@ initializer is not a literal: {lit!r}")
             w.records.append({"path": m.group(1), "kind": "const-literal", "file": os.path.relpath(it["file"], REPO), "span": it["span"],
                               "sha256": sha(lit), "rules_fired": {"const-literal": 1}, "diff_lines": 0, "diff": [], "literal": lit})
